@@ -39,3 +39,7 @@ pub use crate::network::{PoolSize, WriteCoalescingDelay};
 #[cfg(scylla_verif)]
 #[allow(missing_docs)]
 pub use crate::network::verif_streams;
+
+#[cfg(scylla_verif)]
+#[allow(missing_docs)]
+pub use crate::network::verif_keyspace;
